@@ -6,6 +6,17 @@ NOTES = (
     "Verdicts: VIOLATION (property clause false on real behaviour), SPEC-DRIFT (model differs, property holds; exit 0), "
     "exit 2 for machinery failures. Known findings: KNOWN_FINDINGS.txt."
 )
-ENGINES = []
-CHECKS = {}
+ENGINES = [
+    {"name": "Ast", "path": "spec/Ast.tla", "serves_properties": ["C08", "C09", "C12"],
+     "kind_free_text": "TLA+ model of the mutable Expression tree (node store, every branch of set/append/replace/pop, hash cache, deepcopy); TLC exhaustive + transition emission; AstTrace.tla evaluates the invariants on recorded real trees"},
+]
+CHECKS = {
+    "C08": {
+        "engine": "Ast",
+        "design_ref": "DESIGN.md section 5, C08",
+        "technique": "TLA+ model (Ast.tla) checked exhaustively by TLC; every model transition replayed on real Expression objects (spec->code); trees from parse/optimizer/builders/transform validated by TLC against the same invariants (code->spec)",
+        "text": "Bounded-exhaustive model checking of the tree-mutation protocol (all histories of <= 4-5 public operations on <= 6 nodes, incl. hash-cache fills and deepcopy) with LinkOK/NoSharing/HashOK/HashClosed/EqCorrect as invariants, bound to the implementation in both directions: each of the ~10^5 TLC transitions is executed on real objects and the projected real state compared with the model's, and thousands of trees produced by the real parser, optimizer rules, builders and transform (with hash()/== interleaved) are sent back to TLC for invariant evaluation. Right level: the property is a protocol invariant over all operation sequences, which is exactly what an explicit state model enumerates.",
+        "note": "Trusted: the projection lib/astproj.py and the constructor-only clone builder used as 'hash from scratch'; environment assumption that values handed to mutators are detached (guard Fresh). Beyond the bound the model is only sampled via producers.",
+    },
+}
 NOT_APPLICABLE = {}
